@@ -204,12 +204,24 @@ theorem select_range_is_window (qStart qEnd lb off R : Int) (atT : Option Int) (
 /-- Finding C28-F1: `timestamp(m @ a offset o)` overwrites the selector offset with `enh.Ts - a`, so the lookup
     happens at `a` instead of `a - o`, on the samples selected for `a - o`. The model follows the code
     (`SelSuite.modelQuery`, kind `ts`); here: samples at 1005000 and 1010000, lookback 5 s, `@ 1010000 offset 4000`:
-    the documented answer is the sample of 1005000, the engine's strategy finds nothing. -/
+    the documented answer is the sample of 1005000, the engine's strategy as found (`tsAtRefG false`) finds
+    nothing. Which strategy /repo has is `repoFixedTsAtOffset` (fixes/C28-F1.patch). -/
 theorem timestamp_at_offset_ignored_witness :
     let series : Series := [⟨1005000, false, false, 1⟩, ⟨1010000, false, false, 2⟩]
     let vis := visible (selectRange 1010000 1010000 5000 none (some 1010000) 4000 0) series
     instantSel series 1010000 5000 4000 (some 1010000) = some ⟨1005000, false, false, 1⟩ ∧
-    (vsSingle 5000 (Memo.init vis (5000 - 1)) 1010000).2 = none := by decide
+    (vsSingle 5000 (Memo.init vis (5000 - 1)) (tsAtRefG false 1010000 4000)).2 = none := by decide
+
+/-- The repaired strategy (fixes/C28-F1.patch, `tsAtRefG true`) looks the sample up at the documented
+    reference time `a - o`, at every step, like the plain selector `m @ a offset o`
+    (`at_offset_fixes_time`); on the witness data it finds the documented sample. -/
+theorem timestamp_at_offset_fixed (ts a off : Int) :
+    tsAtRefG true a off = refTime ts off (some a) ∧
+    (let series : Series := [⟨1005000, false, false, 1⟩, ⟨1010000, false, false, 2⟩]
+     let vis := visible (selectRange 1010000 1010000 5000 none (some 1010000) 4000 0) series
+     (vsSingle 5000 (Memo.init vis (5000 - 1)) (tsAtRefG true 1010000 4000)).2
+       = instantSel series 1010000 5000 4000 (some 1010000)) := by
+  refine ⟨by simp [tsAtRefG, refTime], by decide⟩
 
 /-! ### subquery steps -/
 
